@@ -121,7 +121,7 @@ def paths_for(g, chain, has_index, in_sizeof_ok=False):
     return out
 
 
-def gen_probe(g, chain, has_index, later_marker=None, allow=None):
+def gen_probe(g, chain, has_index, later_marker=None, allow=None, buildnone_only=False):
     """one planted member: (name|None, spec, value to supply or None) ; has_index = number of scopes (incl. current) that
     inherited a repetition index (0 = none)"""
     draw = g.draw
@@ -135,7 +135,8 @@ def gen_probe(g, chain, has_index, later_marker=None, allow=None):
     if kind == "flag":
         role = draw(st.sampled_from(["computed", "if", "rebuild", "ite"]))
     else:
-        role = draw(st.sampled_from(["computed", "rebuild", "bytes", "switch", "array", "ite", "arith"]))
+        role = draw(st.sampled_from(["computed", "rebuild", "bytes", "switch", "array", "ite", "arith"] if not buildnone_only else
+                                    ["computed", "rebuild", "switch", "ite", "arith"]))
     nm = g.name("p")
     if role == "computed":
         return nm, ["computed", path], None
@@ -170,7 +171,7 @@ def gen_scope(g, chain, depth, has_index, in_grange=False):
         g.labels.add("scope/" + kind)
     mval = draw(st.integers(1, 8))
     mname = g.name("m")
-    mform = draw(st.sampled_from(["plain", "plain", "const", "default"]))
+    mform = draw(st.sampled_from(["plain", "plain", "const", "default"] if kind != "fseq" else ["plain", "default", "default", "const"]))
     marker = [mname, BYTE if mform == "plain" else (["const", mval, BYTE] if mform == "const" else ["default", BYTE, mval])]
     # members of a LazyStruct are not parsed until accessed, so (documented restriction) nothing may refer to them by name
     here = chain + [(mname if kind != "lazystruct" else None, mval)]
@@ -190,7 +191,7 @@ def gen_scope(g, chain, depth, has_index, in_grange=False):
 
     def add_probes(n):
         for _ in range(n):
-            nm, sp, val = gen_probe(g, here, hi, allow=allow)
+            nm, sp, val = gen_probe(g, here, hi, allow=allow, buildnone_only=(kind == "fseq"))    # (a FocusedSeq builds only its focus from a value)
             members.append([nm, sp])
             values[nm] = val
     if kind == "union":
@@ -201,7 +202,7 @@ def gen_scope(g, chain, depth, has_index, in_grange=False):
         # build from the marker only (first member that has a key)
         return spec, {mname: mval if mform == "plain" else None}, here
     add_probes(draw(st.integers(0, 2)))
-    if depth > 1 and kind != "lazystruct" and draw(st.integers(0, 4)) != 0:
+    if depth > 1 and kind != "lazystruct" and not (kind == "fseq" and mform == "plain") and draw(st.integers(0, 4)) != 0:
         cname = g.name("c")
         rep = draw(st.sampled_from(["none", "none", "array", "arrayk", "grange", "runtil"]))
         if rep == "none":
@@ -246,12 +247,17 @@ def _finish(kind, members, values, mname, mval, mform, here):
         return ["lazystruct", spec_members], values, here
     if kind == "seq":
         return ["seq", spec_members], [values.get(n) for n, _ in spec_members], here
-    # fseq: focus on the marker (plain) — every other member must build from nothing
-    ok = all(G.buildnone(s) for n, s in spec_members if n != mname)
-    if not ok or mform == "const":
+    # fseq: exactly one member is built from the supplied value (the focus), every other one from nothing: the focus is the
+    # plain marker, or - when the marker is a Const/Default - the nested scope
+    needy = [n for n, s in spec_members if not G.buildnone(s)]
+    if len(needy) > 1 or any(n is None for n in needy):
+        return ["struct", spec_members], values, here
+    if needy:
+        return ["fseq", needy[0], spec_members], values.get(needy[0]), here
+    if mform == "const":
         return ["struct", spec_members], values, here
     # (focus built from None when the marker is a Default: the built value differs from the supplied one)
-    return ["fseq", mname, spec_members], (mval if mform == "plain" else None), here
+    return ["fseq", mname, spec_members], None, here
 
 
 def fill(spec, value, sc, mode="build"):
